@@ -182,6 +182,7 @@ class Ctx:
         return msgs
 
     def lake(self, targets, timeout=3000):
+        sh([sys.executable, os.path.join(ROOT, "tools", "gen_driver.py")])
         with LakeLock():
             t = time.time()
             rc, out = sh(["lake", "build"] + list(targets), cwd=LEAN, timeout=timeout)
@@ -463,3 +464,40 @@ def lean_eval(ctx, src, timeout=1200):
     with LakeLock():
         rc, out = sh(["lake", "env", "lean", p], cwd=LEAN, timeout=timeout)
     return rc, out
+
+
+# ---------------------------------------------------------------------------- correspondence (tie H)
+def run_c(cmd, lines, timeout=3000, env=None, tag="R "):
+    """run a C driver on op lines; returns (rc, result_lines, stderr_tail). Only stdout lines starting
+    with `tag` are results (the library prints timing noise on stdout)."""
+    e = dict(os.environ)
+    e.setdefault("ASAN_OPTIONS", "detect_leaks=0:abort_on_error=0")
+    e.setdefault("UBSAN_OPTIONS", "print_stacktrace=1")
+    if env:
+        e.update(env)
+    p = subprocess.run(cmd, input=("\n".join(lines) + "\n").encode(), stdout=subprocess.PIPE,
+                       stderr=subprocess.PIPE, timeout=timeout, env=e)
+    outs = [l[len(tag):] for l in p.stdout.decode("utf-8", "replace").split("\n") if l.startswith(tag)]
+    return p.returncode, outs, p.stderr.decode("utf-8", "replace")[-4000:]
+
+
+def correspond(ctx, name, lines, c_cmd, model_lines=None, max_report=5, env=None):
+    """Correspondence check: the same op lines go to the C driver (real code, in-process) and to the Lean
+    model driver; outputs must agree line by line. A sanitizer abort / crash of the C side is a result:
+    the op being processed is reported. Returns the list of disagreements (dicts)."""
+    rc, cout, cerr = run_c(c_cmd, lines, env=env)
+    mout = ctx.driver(model_lines if model_lines is not None else lines)
+    dis = []
+    for i, l in enumerate(lines):
+        c = cout[i] if i < len(cout) else "<no output: C driver stopped, rc=%d>" % rc
+        m = mout[i] if i < len(mout) else "<no output>"
+        if c != m:
+            dis.append(dict(index=i, op=l, impl=c, model=m))
+            if i >= len(cout):
+                dis[-1]["stderr"] = cerr[-1500:]
+                break
+    ctx.evaluations += len(lines)
+    ctx.obligation("correspondence " + name + " (%d ops)" % len(lines), not dis,
+                   json.dumps(dis[:max_report])[:600] if dis else "")
+    ctx.coverage.setdefault("correspondence", {})[name] = dict(ops=len(lines), disagreements=len(dis))
+    return dis
